@@ -521,4 +521,81 @@ theorem filter_none_nil {α} (fs : α → Option File) (inputs : List α) (cs : 
       · simp [hp, i1]
       · simp [hp, i2]
 
+/-! ## names: the outcome is a function of the contents found under the listed names -/
+
+theorem filterMap_congr' {α} (fs fs' : α → Option File) (inputs : List α)
+    (h : ∀ p ∈ inputs, fs p = fs' p) : inputs.filterMap fs = inputs.filterMap fs' := by
+  induction inputs with
+  | nil => rfl
+  | cons p inputs ih =>
+    have hp : fs p = fs' p := h p (by simp)
+    have hr : inputs.filterMap fs = inputs.filterMap fs' := ih (fun q hq => h q (by simp [hq]))
+    simp only [List.filterMap_cons, hp, hr]
+
+/-- how a call ended, without the names: 0 returned, 1 FileNotFoundError, 2 IndexError -/
+def Result.kind {α : Type} : Result α → Nat
+  | .returned => 0
+  | .fileNotFound _ => 1
+  | .indexError => 2
+
+/-- the name-free part of the outcome, computed from the contents alone -/
+def kindOf (cs : List (Option File)) : Nat × Option File :=
+  if cs.isEmpty then (0, none) else
+  if cs.any Option.isNone then (1, none) else
+  if (cs.filterMap id).isEmpty then (0, none) else
+  match assembleLines (cs.filterMap id) with
+  | .error _ => (2, none)
+  | .ok ls => (0, some ls)
+
+theorem filter_isNone_isEmpty {α} (fs : α → Option File) (inputs : List α) :
+    (inputs.filter (fun p => (fs p).isNone)).isEmpty = !(inputs.map fs).any Option.isNone := by
+  induction inputs with
+  | nil => rfl
+  | cons p inputs ih =>
+    cases hp : fs p with
+    | none => simp [hp]
+    | some f => simpa [hp] using ih
+
+theorem assembleRtf_kind {α : Type} (fs : α → Option File) (inputs : List α) :
+    (Result.kind (assembleRtf fs inputs).result, (assembleRtf fs inputs).written) = kindOf (inputs.map fs) := by
+  have hm : (inputs.map fs).filterMap id = inputs.filterMap fs := by
+    rw [List.filterMap_map]; rfl
+  have hf := filter_isNone_isEmpty fs inputs
+  simp only [assembleRtf, kindOf, hm, hf, Bool.not_not]
+  cases h1 : inputs.isEmpty with
+  | true => simp [List.isEmpty_iff.mp h1, Result.kind]
+  | false =>
+    have h1' : (inputs.map fs).isEmpty = false := by
+      cases inputs with
+      | nil => simp at h1
+      | cons a b => rfl
+    simp only [h1', Bool.false_eq_true, if_false]
+    cases h2 : (inputs.map fs).any Option.isNone with
+    | true => simp [Result.kind]
+    | false =>
+      simp only [Bool.false_eq_true, if_false]
+      cases h3 : (inputs.filterMap fs).isEmpty with
+      | true => simp [Result.kind]
+      | false =>
+        simp only [Bool.false_eq_true, if_false]
+        cases h4 : assembleLines (inputs.filterMap fs) with
+        | error e => simp [Result.kind]
+        | ok ls => simp [Result.kind]
+
+theorem kind_returned {α : Type} (r : Result α) : r = .returned ↔ Result.kind r = 0 := by
+  cases r <;> simp [Result.kind]
+
+theorem kind_indexError {α : Type} (r : Result α) : r = .indexError ↔ Result.kind r = 2 := by
+  cases r <;> simp [Result.kind]
+
+theorem read_append_of_not_key {α : Type} [DecidableEq α] (decoys d : Fs α) (p : α)
+    (h : ∀ e ∈ decoys, e.1 ≠ p) : Fs.read (decoys ++ d) p = Fs.read d p := by
+  induction decoys with
+  | nil => rfl
+  | cons e decoys ih =>
+    obtain ⟨q, f⟩ := e
+    have hq : q ≠ p := h (q, f) (by simp)
+    have hr := ih (fun e he => h e (by simp [he]))
+    simp only [List.cons_append, Fs.read, hq, if_false, hr]
+
 end Proofs.Assemble
